@@ -333,3 +333,15 @@ func propC07(c *Ctx) {
 	}
 	r.sample(fmt.Sprintf("source before any swap: %T (identical to crypto/rand.Reader: %v)", defaultSource, defaultSource == io.Reader(crand.Reader)))
 }
+
+// implNewmDefault: NewMnemonic with whatever source the package currently holds (no hook use).
+func implNewmDefault(n, l int64) string {
+	return guarded(func() string {
+		s, err := bip39.NewMnemonic(int(n), bip39.Language(l))
+		if err != nil {
+			return errKind(err)
+		}
+		// the content is random: report only the shape
+		return fmt.Sprintf("ok words=%d", len(strings.FieldsFunc(s, func(r rune) bool { return r == ' ' || r == '　' })))
+	})
+}
